@@ -306,7 +306,86 @@ pub fn main_for(pid: &str) {
         stats.sample(&line);
         out.imp(&format!("{} {}", case, obs));
     }
+    // ---- exhaustive small-scope stream: every structural call with every argument tuple over ALL live nodes (of every kind, in
+    // every tree) of every small start forest: a document whose element (with one attribute) has up to 2 (thorough: 3) children
+    // drawn from { text, empty element, element holding one text }, next to a parentless text and a parentless element with text.
+    // One call per case, so that a disagreement names the call directly.
+    {
+        let mut tmp = Store::new();
+        let pool = make_pool(&mut tmp.xot, &mut tmp.reg, true);
+        let max_kids = if a.tier == "thorough" { 3 } else { 2 };
+        let cfg = HistCfg { steps: 1, refusal_bias: 0, with_clonep: false, with_rmws: false, rmws_pct: 0, clone_pct: 0 };
+        let mut r = base.fork(u64::MAX);
+        let mut idx = 0usize;
+        for start in small_forests(&pool, max_kids) {
+            let mut probe = Store::new();
+            let _ = make_pool(&mut probe.xot, &mut probe.reg, true);
+            for t in &start { let n = build(&mut probe.xot, &probe.reg, t); probe.learn(n); }
+            probe.refresh();
+            let hs = probe.live_handles();
+            for op in small_ops(&hs, pool.names[1 % pool.names.len()]) {
+                let case = format!("x{}", idx);
+                idx += 1;
+                let (tables, init, ops, obs) = run_history(&case, pid, &mut r, &start, Some(vec![op]), &cfg, &mut out, &mut stats, true);
+                let ops_text: Vec<String> = ops.iter().map(op_str).collect();
+                let line = format!("{} {} | {} | {}", case, tables, init, ops_text.join(";"));
+                out.case(&line);
+                stats.case(&line, true);
+                stats.bump("stream.exhaustive_small_scope");
+                out.imp(&format!("{} {}", case, obs));
+            }
+        }
+    }
     out.finish(&stats);
+}
+
+fn small_forests(pool: &Pool, max_kids: usize) -> Vec<Vec<ANode>> {
+    let name = pool.names[0];
+    let leaf = |k: usize| -> ANode {
+        match k {
+            0 => ANode::Text("t".into()),
+            1 => ANode::Elem { name, ns: vec![], attrs: vec![], kids: vec![] },
+            _ => ANode::Elem { name, ns: vec![], attrs: vec![], kids: vec![ANode::Text("w".into())] },
+        }
+    };
+    let mut out = vec![];
+    for len in 0..=max_kids {
+        let total = 3usize.pow(len as u32);
+        'seq: for mut i in 0..total {
+            let mut ks = vec![];
+            for _ in 0..len { ks.push(i % 3); i /= 3; }
+            for w in ks.windows(2) { if w[0] == 0 && w[1] == 0 { continue 'seq; } }   // adjacent text is not a reachable start state
+            let kids: Vec<ANode> = ks.iter().map(|k| leaf(*k)).collect();
+            let root = ANode::Elem { name, ns: vec![], attrs: vec![(pool.attr_names[0], "v".into())], kids };
+            out.push(vec![
+                ANode::Doc(vec![root]),
+                ANode::Text("d".into()),
+                ANode::Elem { name, ns: vec![], attrs: vec![], kids: vec![ANode::Text("u".into())] },
+            ]);
+        }
+    }
+    out
+}
+
+fn small_ops(hs: &[Handle], name: usize) -> Vec<Op> {
+    let mut v = vec![];
+    for a in hs {
+        v.push(Op::Detach(*a));
+        v.push(Op::Remove(*a));
+        v.push(Op::Unwrap(*a));
+        v.push(Op::Wrap(*a, name));
+        v.push(Op::CloneNode(*a));
+        v.push(Op::TextContentMut(*a, "m".into()));
+        for b in hs {
+            v.push(Op::Append(*a, *b));
+            v.push(Op::Prepend(*a, *b));
+            v.push(Op::InsertAfter(*a, *b));
+            v.push(Op::InsertBefore(*a, *b));
+            v.push(Op::Replace(*a, *b));
+            v.push(Op::AnyAppend(*a, *b));
+        }
+    }
+    v
 }
 
 /// a replayed case line carries its start forest as a read-back text; the forest is rebuilt node by node so that the
